@@ -155,11 +155,17 @@ def noscript_text_trigger(doc):
     return False
 
 
-def run_roundtrip(doc, opts, enc, walker):
+def run_roundtrip(doc, opts, enc, walker, prior=None):
     from html5lib.serializer import HTMLSerializer
     markup = G.writer(doc)
     tree, p = h5.parse(markup, builder=walker, full_tree=True)
     s = HTMLSerializer(inject_meta_charset=False, **opts)
+    if prior is not None:
+        # the serializer object has been used before, with another output encoding (a configuration like any other)
+        try:
+            s.render(h5.walk(tree, walker), prior["encoding"])
+        except Exception:
+            pass
     out = s.render(h5.walk(tree, walker), enc) if enc else s.render(h5.walk(tree, walker))
     if enc:
         r2, p2 = h5.parse(out, builder="etree", full_tree=True, transport_encoding=enc)
@@ -176,7 +182,7 @@ def check_case(case):
         # a comment cannot carry a character reference: such a document has no serialisation in that encoding at all
         return Verdict("excluded", finding="comment not expressible in the output encoding")
     try:
-        got0, out, got, ser = run_roundtrip(doc, opts, enc, walker)
+        got0, out, got, ser = run_roundtrip(doc, opts, enc, walker, case.get("prior"))
     except Exception as e:
         return Verdict("fail", "%s: %s (opts %s enc %s walker %s) on %s" % (type(e).__name__, short(str(e), 100), opts, enc, walker, short(G.writer(doc), 200)),
                        "exception:" + type(e).__name__, nontrivial=True)
@@ -256,13 +262,16 @@ def shards(tier):
 
 def run_shard(desc, seed, tier):
     acc = Acc()
-    strat = st.tuples(sized_binary(20, 60 + desc["size"] * 6), st.binary(min_size=12, max_size=12))
+    strat = st.tuples(sized_binary(20, 60 + desc["size"] * 6), st.binary(min_size=13, max_size=13))
 
     def fn(x):
         data, odata = x
         doc = G.decode_document(data, size=desc["size"])
         opts, enc, walker = decode_opts(Dec(odata))
         case = {"doc": doc, "opts": opts, "encoding": enc, "walker": walker}
+        k = odata[-1] % 8
+        if k >= 4:
+            case["prior"] = {"encoding": [None, "utf-8", "koi8-r", "utf-8"][k - 4]}
         acc.add(case, check_case(case), sample={"markup": short(G.writer(doc), 300), "opts": opts, "encoding": enc, "walker": walker})
     drive(strat, fn, desc["n"], seed)
     return acc
